@@ -229,7 +229,7 @@ PROPERTY = dict(
     bounds=dict(crash_point='symbolic index over every step boundary (<=25 single, <=15 multi), plus "no crash"', molecules='0..2 (thorough 3)',
                 jobs='1..3 with any subset producing no output', flavours='exception of 6 types: custom, ValueError, KeyError, OSError, RuntimeError, IndexError (handlers/context managers run) and kill (world snapshotted at the step)'),
     outside=['real process death between write() and data reaching disk', 'htslib sort/index/merge internals (steps that either complete or fail)',
-             'cluster submission mode', 'multiprocessing.Pool worker death (the serial driver is executed)'],
+             'cluster submission mode', 'multiprocessing.Pool worker death (the serial driver is executed)', '-head N and -max_time_per_segment (runs that are complete by design although records are left out)', 'output paths containing ".bam" more than once (write_status path replacement)'],
     assumptions=['every environment operation is atomic: it either happens completely or fails before any effect',
                  'status file starts as "unfinished" (written by run_multiome_tagging before tagging starts)',
                  'the run counts as failed iff the pipeline call does not return normally (faults the pipeline absorbs, such as a sort attempt retried at another temp location or a failing temp-folder cleanup, are not failures)'],
